@@ -306,6 +306,9 @@ let pb_sketch_str (p : M.pb_sketch) : string =
   Printf.sprintf "map=%s zero=%s pos=%s neg=%s"
     (match p.M.ps_mapping with Some m -> Printf.sprintf "%s:%s:%s" (Z.to_string (to_zn m.M.pm_interp)) (xstr m.M.pm_gamma) (xstr m.M.pm_offset) | None -> "nil")
     (fstr_f p.M.ps_zero) (st p.M.ps_pos) (st p.M.ps_neg)
+let pb_mapping_str (m : M.pb_mapping) : string =
+  let i = to_zn m.M.pm_interp in let i = if Z.geq i (Z.shift_left Z.one 31) then Z.sub i (Z.shift_left Z.one 32) else i in
+  Printf.sprintf "%s:%s:%s" (Z.to_string i) (xstr m.M.pm_gamma) (xstr m.M.pm_offset)
 let pb_of_sketch (s : M.sketch) : M.pb_sketch =
   { M.ps_mapping = Some { M.pm_gamma = s.M.sk_map.M.mk_gamma; M.pm_offset = s.M.sk_map.M.mk_off; M.pm_interp = s.M.sk_map.M.mk_kind };
     M.ps_pos = Some (pb_of_store s.M.sk_pos); M.ps_neg = Some (pb_of_store s.M.sk_neg); M.ps_zero = M.q2f s.M.sk_zero }
@@ -343,6 +346,38 @@ let exec_proto (toks : string list) (side : string list) : string =
   | ["newfromproto"; r; p] ->
     (match merge_with_proto (M.st_new M.KDense) (Hashtbl.find pstores p) with
      | Some s -> Hashtbl.replace stores r (Some s); "ok" | None -> Hashtbl.replace stores r None; "panic")
+  (* ----- mapping messages (C19): ToProto, the streaming writer, marshal/unmarshal through the schema parser, FromProto ----- *)
+  | ["mproto"; q; m] ->
+    let gm = Hashtbl.find mappings m in let id = mapid_of gm in
+    Hashtbl.replace pmappings q { M.pm_gamma = id.M.mk_gamma; M.pm_offset = id.M.mk_off; M.pm_interp = id.M.mk_kind }; "ok"
+  | ["mpobs"; q] -> pb_mapping_str (Hashtbl.find pmappings q)
+  | ["mpmk"; q; interp; g; o] ->
+    let i = Z.of_string interp in let i = if Z.sign i < 0 then Z.add i (Z.shift_left Z.one 32) else i in
+    Hashtbl.replace pmappings q { M.pm_gamma = f64_of_hex g; M.pm_offset = f64_of_hex o; M.pm_interp = n_of i }; "ok"
+  | ["mstream"; b; m] ->
+    let gm = Hashtbl.find mappings m in let id = mapid_of gm in
+    let want = { M.pm_gamma = id.M.mk_gamma; M.pm_offset = id.M.mk_off; M.pm_interp = id.M.mk_kind } in
+    let ib = side_bytes side in Hashtbl.replace bytesr b ib;
+    if string_of_bytes (M.stream_mapping want) <> ib then "ok MODEL-STREAM-BYTES-DIFFER"
+    else (match M.parse_mapping (bytes_of_string ib) with
+        | Some pm -> if pb_mapping_str pm = pb_mapping_str want then "ok" else "ok MODEL-STREAM-DIFFERS [" ^ pb_mapping_str pm ^ "]"
+        | None -> "ok MODEL-STREAM-UNPARSABLE")
+  | ["mpmarshal"; b; q] ->
+    let ib = side_bytes side in Hashtbl.replace bytesr b ib;
+    (match M.parse_mapping (bytes_of_string ib) with
+     | Some pm -> if pb_mapping_str pm = pb_mapping_str (Hashtbl.find pmappings q) then "ok" else "ok MODEL-MARSHAL-DIFFERS"
+     | None -> "ok MODEL-MARSHAL-UNPARSABLE")
+  | ["mpunmarshal"; q; b] ->
+    (match M.parse_mapping (bytes_of_string (get_bytes b)) with Some pm -> Hashtbl.replace pmappings q pm; "ok" | None -> "err other")
+  | ["mfromproto"; m; q] ->
+    if q = "-" then "err nil-proto" else
+    let pm = Hashtbl.find pmappings q in
+    let kk = Z.to_int (to_zn pm.M.pm_interp) in
+    (match (match kk with 0 -> Some M.MLog | 1 -> Some M.MLin | 3 -> Some M.MCub | _ -> None) with
+     | None -> "err other"
+     | Some kd -> (match M.with_gamma the_libm kd pm.M.pm_gamma pm.M.pm_offset with
+         | Some gm -> Hashtbl.replace mappings m gm; "ok" ^ map_diff gm side
+         | None -> "err bad-gamma"))
   | ["ktoproto"; p; k] -> let (_, s) = get_sk k in Hashtbl.replace psketches p (pb_of_sketch s); "ok"
   | ["kpobs"; p] -> pb_sketch_str (Hashtbl.find psketches p)
   | ["kstream"; b; k] ->
